@@ -1,1 +1,316 @@
-//! C14 harnesses (Engine K)
+//! C14 — adaptive fees follow the volatility schedule and stay within the hard limit (Engine K).
+//!
+//! Inputs are symbolic everywhere. Constants are constrained ONLY by `validate_constants(..) == true`
+//! (every writer of `Oracle.adaptive_fee_constants` / `AdaptiveFeeTier` goes through it), variables by the
+//! stored-state invariant (established by `Oracle::reset_adaptive_fee_variables` — also on every constants
+//! change — and preserved by `update_reference` / `update_volatility_accumulator`, which is itself asserted
+//! below): `volatility_reference <= max_volatility_accumulator`, `volatility_accumulator <= max`, and the
+//! reference group is the group of a tick the pool can store (`MIN_TICK_INDEX-1 ..= MAX_TICK_INDEX`).
+//! Release builds have `overflow-checks = false`: Kani's built-in arithmetic checks are the "no overflow" claim.
+use crate::common::*;
+use ::whirlpool::errors::ErrorCode;
+use ::whirlpool::manager::fee_rate_manager::*;
+use ::whirlpool::math::*;
+use ::whirlpool::state::*;
+
+/// lowest value `whirlpool.tick_current_index` can hold (a_to_b crossing of the tick at MIN_TICK_INDEX shifts by -1)
+const MIN_CUR_TICK: i32 = MIN_TICK_INDEX - 1;
+const SCALE: u64 = 10_000; // VOLATILITY_ACCUMULATOR_SCALE_FACTOR, restated independently
+const HARD_LIMIT: u32 = 100_000; // 10% in hundredths of a basis point, restated independently
+const ONE_HOUR: u64 = 3_600;
+
+fn raw_constants() -> AdaptiveFeeConstants {
+    let mut c = AdaptiveFeeConstants::default();
+    c.filter_period = kani::any();
+    c.decay_period = kani::any();
+    c.reduction_factor = kani::any();
+    c.adaptive_fee_control_factor = kani::any();
+    c.max_volatility_accumulator = kani::any();
+    c.tick_group_size = kani::any();
+    c.major_swap_threshold_ticks = kani::any();
+    c
+}
+fn is_valid(tick_spacing: u16, c: &AdaptiveFeeConstants) -> bool {
+    AdaptiveFeeConstants::validate_constants(
+        tick_spacing,
+        c.filter_period,
+        c.decay_period,
+        c.reduction_factor,
+        c.adaptive_fee_control_factor,
+        c.max_volatility_accumulator,
+        c.tick_group_size,
+        c.major_swap_threshold_ticks,
+    )
+}
+/// all constants accepted by the program for some tick spacing
+fn any_constants() -> AdaptiveFeeConstants {
+    let tick_spacing: u16 = kani::any();
+    let c = raw_constants();
+    kani::assume(is_valid(tick_spacing, &c));
+    c
+}
+/// `g` is the group (floor(t / size)) of some tick t in MIN_CUR_TICK..=MAX_TICK_INDEX, without dividing
+fn is_group_of_storable_tick(g: i32, size: u16) -> bool {
+    let lo = g as i64 * size as i64; // first tick of the group
+    lo <= MAX_TICK_INDEX as i64 && lo + size as i64 - 1 >= MIN_CUR_TICK as i64
+}
+/// all variable states an Oracle account can hold next to constants `c`
+fn any_variables(c: &AdaptiveFeeConstants) -> AdaptiveFeeVariables {
+    let mut v = AdaptiveFeeVariables::default();
+    v.last_reference_update_timestamp = kani::any();
+    v.last_major_swap_timestamp = kani::any();
+    v.volatility_reference = kani::any();
+    v.tick_group_index_reference = kani::any();
+    v.volatility_accumulator = kani::any();
+    kani::assume(v.volatility_reference <= c.max_volatility_accumulator);
+    kani::assume(v.volatility_accumulator <= c.max_volatility_accumulator);
+    kani::assume(is_group_of_storable_tick(v.tick_group_index_reference, c.tick_group_size));
+    v
+}
+fn same_vars(a: &AdaptiveFeeVariables, b: &AdaptiveFeeVariables) -> bool {
+    ({ a.last_reference_update_timestamp } == { b.last_reference_update_timestamp })
+        && ({ a.last_major_swap_timestamp } == { b.last_major_swap_timestamp })
+        && ({ a.volatility_reference } == { b.volatility_reference })
+        && ({ a.tick_group_index_reference } == { b.tick_group_index_reference })
+        && ({ a.volatility_accumulator } == { b.volatility_accumulator })
+        && (a.reserved == b.reserved)
+}
+fn same_consts(a: &AdaptiveFeeConstants, b: &AdaptiveFeeConstants) -> bool {
+    ({ a.filter_period } == { b.filter_period })
+        && ({ a.decay_period } == { b.decay_period })
+        && ({ a.reduction_factor } == { b.reduction_factor })
+        && ({ a.adaptive_fee_control_factor } == { b.adaptive_fee_control_factor })
+        && ({ a.max_volatility_accumulator } == { b.max_volatility_accumulator })
+        && ({ a.tick_group_size } == { b.tick_group_size })
+        && ({ a.major_swap_threshold_ticks } == { b.major_swap_threshold_ticks })
+        && (a.reserved == b.reserved)
+}
+fn adaptive(
+    a_to_b: bool,
+    tick_group_index: i32,
+    static_fee_rate: u16,
+    c: AdaptiveFeeConstants,
+    v: AdaptiveFeeVariables,
+) -> FeeRateManager {
+    FeeRateManager::Adaptive {
+        a_to_b,
+        tick_group_index,
+        static_fee_rate,
+        adaptive_fee_constants: c,
+        adaptive_fee_variables: v,
+        core_tick_group_range_lower_bound: None,
+        core_tick_group_range_upper_bound: None,
+    }
+}
+
+/// (1) validate_constants(ts, ..) == the rule list (doc comments of validate_constants / constant definitions in
+/// state/oracle.rs, the only published statement of the rules in the repository), for ALL 8 arguments
+// @verif prop=C14 tier=quick timeout=300
+#[kani::proof]
+#[kani::stub(alloc::fmt::format, stub_format)]
+#[kani::stub(<anchor_lang::error::Error as core::convert::From<::whirlpool::errors::ErrorCode>>::from, stub_err_from_code)]
+fn c14_validate_constants_rules() {
+    let ts: u16 = kani::any();
+    let c = raw_constants();
+    let (fp, dp, rf) = (c.filter_period, c.decay_period, c.reduction_factor);
+    let (cf, mva) = (c.adaptive_fee_control_factor, c.max_volatility_accumulator);
+    let (tgs, mst) = (c.tick_group_size, c.major_swap_threshold_ticks);
+    let got = is_valid(ts, &c);
+    let rule_periods = fp >= 1 && dp >= 1 && fp < dp;
+    let rule_control = cf < 100_000; // strictly below its denominator
+    let rule_reduction = rf < 10_000; // strictly below its denominator
+    let rule_no_overflow = (mva as u64) * (tgs as u64) <= u32::MAX as u64;
+    // tick_group_size is a divisor of tick_spacing (1 ..= tick_spacing)
+    let rule_group = tgs >= 1 && tgs <= ts && (ts / tgs) * tgs == ts;
+    // 1 ..= number of ticks spanned by one tick array (88 * tick_spacing)
+    let rule_major = mst >= 1 && (mst as u32) <= 88u32 * ts as u32;
+    let expected = rule_periods && rule_control && rule_reduction && rule_no_overflow && rule_group && rule_major;
+    kani::cover!(got, "valid constants exist");
+    kani::cover!(got && cf == 0, "valid with zero control factor");
+    kani::cover!(!got && rule_periods && rule_control && rule_reduction && rule_no_overflow && rule_group, "rejected by the major-swap rule only");
+    assert!(got == expected);
+}
+
+/// (2) update_volatility_accumulator: Ok, no overflow, result == min(reference + |group - reference_group| * 10_000, max)
+/// (hence <= max), nothing else modified; all valid constants, all stored variables, every group index a swap can visit
+// @verif prop=C14 tier=quick timeout=300
+#[kani::proof]
+#[kani::stub(alloc::fmt::format, stub_format)]
+#[kani::stub(<anchor_lang::error::Error as core::convert::From<::whirlpool::errors::ErrorCode>>::from, stub_err_from_code)]
+fn c14_update_volatility_accumulator() {
+    let c = any_constants();
+    let v0 = any_variables(&c);
+    let g: i32 = kani::any();
+    // groups visited by the swap loop: group of a storable tick, or one further (the loop advances once past the end)
+    kani::assume(g >= MIN_CUR_TICK - 1 && g <= MAX_TICK_INDEX + 1);
+    let mut v = v0;
+    let r = v.update_volatility_accumulator(g, &c);
+    let ok = r.is_ok();
+    core::mem::forget(r);
+    assert!(ok);
+    let dist = (g as i64 - v0.tick_group_index_reference as i64).unsigned_abs();
+    let raw = v0.volatility_reference as u64 + dist * SCALE;
+    let expected = if raw < c.max_volatility_accumulator as u64 { raw } else { c.max_volatility_accumulator as u64 };
+    kani::cover!(raw < c.max_volatility_accumulator as u64 && dist > 1, "below the maximum");
+    kani::cover!(raw > c.max_volatility_accumulator as u64, "saturated");
+    assert!({ v.volatility_accumulator } as u64 == expected);
+    assert!({ v.volatility_accumulator } <= { c.max_volatility_accumulator });
+    let mut w = v0;
+    w.volatility_accumulator = v.volatility_accumulator;
+    assert!(same_vars(&v, &w));
+}
+
+/// (3a) get_total_fee_rate in [static, 100_000], == min(static + adaptive, 100_000) where adaptive is the manager's rate
+/// with static 0; no overflow in compute_adaptive_fee_rate; Static manager returns the static rate
+// @verif prop=C14 tier=quick timeout=300
+#[kani::proof]
+#[kani::stub(alloc::fmt::format, stub_format)]
+#[kani::stub(<anchor_lang::error::Error as core::convert::From<::whirlpool::errors::ErrorCode>>::from, stub_err_from_code)]
+fn c14_total_fee_rate_bounds() {
+    let c = any_constants();
+    let v = any_variables(&c);
+    let static_fee: u16 = kani::any();
+    let a_to_b: bool = kani::any();
+    let g: i32 = kani::any();
+    let total = adaptive(a_to_b, g, static_fee, c, v).get_total_fee_rate();
+    let only_adaptive = adaptive(a_to_b, g, 0, c, v).get_total_fee_rate();
+    let st = FeeRateManager::Static { static_fee_rate: static_fee }.get_total_fee_rate();
+    kani::cover!(total > static_fee as u32 && total < HARD_LIMIT, "adaptive part charged, below the cap");
+    kani::cover!(static_fee as u32 + only_adaptive > HARD_LIMIT, "cap applies");
+    assert!(total >= static_fee as u32);
+    assert!(total <= HARD_LIMIT);
+    assert!(only_adaptive <= HARD_LIMIT);
+    let sum = static_fee as u32 + only_adaptive;
+    assert!(total == if sum > HARD_LIMIT { HARD_LIMIT } else { sum });
+    assert!(st == static_fee as u32);
+    if c.adaptive_fee_control_factor == 0 {
+        assert!(total == static_fee as u32);
+    }
+}
+
+/// (3b) exact formula: adaptive rate == min(ceil(control_factor * (accumulator * group_size)^2 / 10^13), 100_000), stated
+/// without division: r*D >= N > (r-1)*D below the cap, N > 99_999*D at the cap (D = 100_000 * 10_000 * 10_000)
+// @verif prop=C14 tier=quick timeout=300
+#[kani::proof]
+#[kani::stub(alloc::fmt::format, stub_format)]
+#[kani::stub(<anchor_lang::error::Error as core::convert::From<::whirlpool::errors::ErrorCode>>::from, stub_err_from_code)]
+fn c14_adaptive_fee_rate_formula() {
+    let c = any_constants();
+    let v = any_variables(&c);
+    let r = adaptive(kani::any(), kani::any(), 0, c, v).get_total_fee_rate() as u128;
+    const D: u128 = 10_000_000_000_000;
+    let crossed = v.volatility_accumulator as u128 * c.tick_group_size as u128;
+    let n = c.adaptive_fee_control_factor as u128 * crossed * crossed;
+    kani::cover!(r > 0 && r < HARD_LIMIT as u128, "strictly between");
+    kani::cover!(r == HARD_LIMIT as u128, "capped");
+    assert!(r <= HARD_LIMIT as u128);
+    if r < HARD_LIMIT as u128 {
+        assert!(r * D >= n);
+        assert!(r == 0 || (r - 1) * D < n);
+    } else {
+        assert!(n > (HARD_LIMIT as u128 - 1) * D);
+    }
+}
+
+/// (4) update_reference against the documented rule, as postconditions: Err(InvalidTimestamp) iff now < max(last update,
+/// last major swap); reference older than one hour => reset; else by elapsed time since max(..): < filter => unchanged,
+/// < decay => reference group := current, volatility_reference := floor(accumulator * reduction / 10_000), >= decay =>
+/// reference group := current, volatility_reference := 0. Accumulator / major-swap timestamp never touched; the stored
+/// invariant volatility_reference <= max is preserved. Timestamps are arbitrary u64.
+// @verif prop=C14 tier=quick timeout=300
+#[kani::proof]
+#[kani::stub(alloc::fmt::format, stub_format)]
+#[kani::stub(<anchor_lang::error::Error as core::convert::From<::whirlpool::errors::ErrorCode>>::from, stub_err_from_code)]
+fn c14_update_reference_rules() {
+    let c = any_constants();
+    let v0 = any_variables(&c);
+    let g: i32 = kani::any();
+    let now: u64 = kani::any();
+    let mut v = v0;
+    let r = v.update_reference(g, now, &c);
+    let last_ref = v0.last_reference_update_timestamp;
+    let last_major = v0.last_major_swap_timestamp;
+    let last = if last_ref > last_major { last_ref } else { last_major };
+    let reset = |v: &AdaptiveFeeVariables| {
+        let (rg, vr, ts) = (v.tick_group_index_reference, v.volatility_reference, v.last_reference_update_timestamp);
+        rg == g && vr == 0 && ts == now
+    };
+    kani::cover!(r.is_ok() && now - last_ref > ONE_HOUR && now - last < c.filter_period as u64, "one-hour reset inside the filter window");
+    kani::cover!(r.is_ok() && now - last_ref <= ONE_HOUR && now - last >= c.filter_period as u64 && now - last < c.decay_period as u64 && { v.volatility_reference } > 0, "decayed reference");
+    kani::cover!(r.is_err(), "time went backwards");
+    match &r {
+        Err(e) => {
+            assert!(now < last);
+            assert!(acode(e) == ecode(ErrorCode::InvalidTimestamp));
+            assert!(same_vars(&v, &v0));
+        }
+        Ok(()) => {
+            assert!(now >= last);
+            // never touched by this function
+            assert!({ v.volatility_accumulator } == { v0.volatility_accumulator });
+            assert!({ v.last_major_swap_timestamp } == last_major);
+            assert!(v.reserved == v0.reserved);
+            let elapsed = now - last;
+            if now - last_ref > ONE_HOUR {
+                assert!(reset(&v));
+            } else if elapsed < c.filter_period as u64 {
+                assert!(same_vars(&v, &v0));
+            } else if elapsed < c.decay_period as u64 {
+                assert!({ v.tick_group_index_reference } == g);
+                assert!({ v.last_reference_update_timestamp } == now);
+                // floor(acc * reduction / 10_000) without dividing
+                let p = v0.volatility_accumulator as u64 * c.reduction_factor as u64;
+                let q = { v.volatility_reference } as u64;
+                assert!(q * 10_000 <= p && p < (q + 1) * 10_000);
+            } else {
+                assert!(reset(&v));
+            }
+            assert!({ v.volatility_reference } <= { c.max_volatility_accumulator });
+        }
+    }
+    core::mem::forget(r);
+}
+
+/// (9) get_next_adaptive_fee_info: Some(constants, variables held by the manager) for Adaptive, None for Static
+// @verif prop=C14 tier=quick timeout=300
+#[kani::proof]
+#[kani::stub(alloc::fmt::format, stub_format)]
+#[kani::stub(<anchor_lang::error::Error as core::convert::From<::whirlpool::errors::ErrorCode>>::from, stub_err_from_code)]
+fn c14_next_adaptive_fee_info() {
+    let c = any_constants();
+    let v = any_variables(&c);
+    let g: i32 = kani::any();
+    kani::assume(g >= MIN_CUR_TICK - 1 && g <= MAX_TICK_INDEX + 1);
+    let mut m = adaptive(kani::any(), g, kani::any(), c, v);
+    // the variables reported are the ones the manager updated last (accumulator of the group it was told to visit)
+    let r = m.update_volatility_accumulator();
+    let ok = r.is_ok();
+    core::mem::forget(r);
+    assert!(ok);
+    let mut expect = v;
+    let r2 = expect.update_volatility_accumulator(g, &c);
+    core::mem::forget(r2);
+    match m.get_next_adaptive_fee_info() {
+        Some(info) => {
+            assert!(same_consts(&info.constants, &c));
+            assert!(same_vars(&info.variables, &expect));
+            kani::cover!({ info.variables.volatility_accumulator } != { v.volatility_accumulator }, "accumulator changed");
+        }
+        None => assert!(false, "adaptive manager must report its variables"),
+    }
+    let s = FeeRateManager::Static { static_fee_rate: kani::any() };
+    assert!(s.get_next_adaptive_fee_info().is_none());
+}
+
+/// vacuity twin: must FAIL (an adaptive pool with non-zero control factor can charge more than the static rate)
+// @verif prop=C14 tier=quick timeout=300 twin
+#[kani::proof]
+#[kani::stub(alloc::fmt::format, stub_format)]
+#[kani::stub(<anchor_lang::error::Error as core::convert::From<::whirlpool::errors::ErrorCode>>::from, stub_err_from_code)]
+fn c14_twin_must_fail() {
+    let c = any_constants();
+    let v = any_variables(&c);
+    let static_fee: u16 = kani::any();
+    let total = adaptive(kani::any(), kani::any(), static_fee, c, v).get_total_fee_rate();
+    assert!(total == static_fee as u32, "twin: adaptive surcharge must be reachable");
+}
